@@ -1,0 +1,109 @@
+//go:build verif
+
+package node
+
+import (
+	"sort"
+
+	am "github.com/pancsta/asyncmachine-go/pkg/machine"
+)
+
+// Verification accessors (build tag "verif" only). Read-only views of the
+// supervisor's unexported worker map. Nothing here changes the behaviour of
+// the package and no call sites are added to it.
+//
+// The accessors read [Supervisor.workers] without a lock, exactly like the
+// supervisor's own handlers do: call them only from the supervisor machine's
+// handlers or tracer callbacks (TransitionInit / TransitionEnd run on the
+// goroutine that owns the transition, while no handler is running).
+
+// VerifWorker is an exported copy of one workerInfo entry.
+type VerifWorker struct {
+	// Addr is the key of the entry in Supervisor.workers (the bootstrap address
+	// until WorkerForked switches it to the worker's local RPC address).
+	Addr string
+	// Rpc is true when the entry has an RPC client with a NetMach (rpcWorkers).
+	Rpc bool
+	// Ready is true when readyWorkers() lists the entry.
+	Ready bool
+	// Errs is workerInfo.errs.ItemCount(), the value ErrWorkerState compares
+	// with WorkerErrKill.
+	Errs int
+	// ErrsRecent is workerInfo.errsRecent.ItemCount() (hasErrs() is > 0).
+	ErrsRecent int
+	// NetReady is the NetMach's Ready state, regardless of errors.
+	NetReady bool
+}
+
+// VerifPool is a snapshot of the worker pool as the supervisor's handlers see
+// it at this moment.
+type VerifPool struct {
+	// Tracked is len(s.workers).
+	Tracked int
+	// Ready is len(s.readyWorkers()).
+	Ready int
+	// MinEff is s.min() (Min capped by Max).
+	MinEff  int
+	Min     int
+	Max     int
+	Warm    int
+	ErrKill int
+	Workers []VerifWorker
+}
+
+// VerifPoolOf samples the pool. See the package comment of this file for the
+// calling context.
+func VerifPoolOf(s *Supervisor) VerifPool {
+	p := VerifPool{
+		Tracked: len(s.workers),
+		MinEff:  s.min(),
+		Min:     s.Min,
+		Max:     s.Max,
+		Warm:    s.Warm,
+		ErrKill: s.WorkerErrKill,
+	}
+	ready := map[*workerInfo]bool{}
+	for _, info := range s.readyWorkers() {
+		ready[info] = true
+	}
+	p.Ready = len(ready)
+	for addr, info := range s.workers {
+		w := VerifWorker{Addr: addr}
+		if info != nil {
+			w.Rpc = info.rpc != nil && info.rpc.NetMach != nil
+			w.Ready = ready[info]
+			if info.errs != nil {
+				w.Errs = info.errs.ItemCount()
+			}
+			if info.errsRecent != nil {
+				w.ErrsRecent = info.errsRecent.ItemCount()
+			}
+			if w.Rpc {
+				w.NetReady = info.rpc.NetMach.Is1(ssW.Ready)
+			}
+		}
+		p.Workers = append(p.Workers, w)
+	}
+	sort.Slice(p.Workers, func(i, j int) bool {
+		return p.Workers[i].Addr < p.Workers[j].Addr
+	})
+
+	return p
+}
+
+// VerifArgs extracts the address fields of node args (typed [A]) from
+// mutation / event args, for attributing a supervisor transition to a worker.
+func VerifArgs(args am.A) (workerAddr, localAddr, bootAddr string,
+	hasInfo bool,
+) {
+	a := am.ParseArgs[A](args)
+	if a == nil {
+		return "", "", "", false
+	}
+	boot := a.BootAddr
+	if boot == "" && a.Bootstrap != nil {
+		boot = a.Bootstrap.Addr()
+	}
+
+	return a.WorkerAddr, a.LocalAddr, boot, a.WorkerInfo != nil
+}
